@@ -306,6 +306,8 @@ def explore(item):
 
 
 DEEPER = [(0, 0), (3, 0)]          # (method, seed) explored one level deeper in the thorough tier
+# quick tier: every seed on the plain method, the other methods on the fresh engine and on the seeds they add something to
+QUICK_COMBOS = [(0, 0), (0, 1), (0, 2), (0, 3), (0, 4), (1, 0), (1, 4), (2, 0), (2, 2), (2, 3), (3, 0), (3, 4)]
 
 
 def run(ctx):
@@ -315,12 +317,14 @@ def run(ctx):
     depths = {}
     for mi in range(len(METHODS)):
         for wi in range(len(SEEDS)):
+            if ctx.quick and (mi, wi) not in QUICK_COMBOS:
+                continue
             d = depth + 1 if (not ctx.quick and (mi, wi) in DEEPER) else depth
             depths[f"{mi},{wi}"] = d
             for a in range(n):
                 for b in range(n):
                     items.append((mi, wi, (a, b), d))
-    ctx.prove_deterministic(lambda it: explore((it[0], it[1], it[2], 4)), [items[0], items[n * n * 6 + 10], items[n * n * 12 + 75]], k=3)
+    ctx.prove_deterministic(lambda it: explore((it[0], it[1], it[2], 4)), [items[0], items[n * n * 6 + 10], items[n * n * 9 + 75]], k=3)
     results = ctx.pmap(explore, items, chunk=4)
     tot = dict(execs=0, pruned=0, transitions=0, checked=0, nontrivial=0, nontrivial_execs=0, ambiguous=0, double=0, two_runs=0)
     kinds = set()
